@@ -28,6 +28,9 @@ type C12Case struct {
 	Query    spsim.AttrQuery `json:"query"`
 	Style    spsim.XMLStyle  `json:"style"`
 	SignMode string          `json:"sign_mode"` // none | valid | rogue | rogue-registered-cert | edited | empty-value
+	// GenuineFirst: the query as its requester signed it is presented first (and answered or not), then the case's query arrives
+	// at the same provider: what verified a moment ago lends nothing to a message that bears the same signature element
+	GenuineFirst bool `json:"genuine_presented_first,omitempty"`
 	HoistNS  bool            `json:"namespaces_on_envelope,omitempty"` // the query's prefixes are declared on the SOAP envelope
 	DestKind string          `json:"dest_kind"`
 	Soap     string          `json:"soap_prefix"`
@@ -213,6 +216,7 @@ func genC12Case(t *rapid.T) C12Case {
 		}
 	}
 	c.SignMode = rapid.SampledFrom([]string{"none", "none", "none", "none", "none", "none", "none", "valid", "rogue", "rogue-registered-cert", "edited", "empty-value", "rogue-no-keyinfo", "edited-no-keyinfo", "two-queries-genuine-first", "two-queries-genuine-last", "two-bodies-genuine-first", "two-bodies-genuine-last", "wrapped-header", "wrapped-header-nokeyinfo"}).Draw(t, "signmode")
+	c.GenuineFirst = rapid.IntRange(0, 2).Draw(t, "genuine-first") == 0
 	return c
 }
 
@@ -342,6 +346,13 @@ func c12Run(c C12Case) c12Outcome {
 	if c.Noise {
 		runNoise(w, wspec)
 	}
+	now := time.Now()
+	if c.GenuineFirst && c.SignMode != "none" && c.SignMode != "valid" {
+		g := c
+		g.SignMode = "valid"
+		obs.Do(w.Handler, c12Render(g, now))
+		w.Store.ResetLog()
+	}
 	var faults []world.Fault
 	if c.SignFault == "mismatch" || c.SignFault == "nokey" {
 		faults = append(faults, world.Fault{Op: "GetResponseSigningKey", Occurrence: 0, Kind: c.SignFault})
@@ -352,7 +363,6 @@ func c12Run(c C12Case) c12Outcome {
 	if len(faults) > 0 {
 		w.Store.SetFaults(faults)
 	}
-	now := time.Now()
 	hr := c12Render(c, now)
 	rep := obs.Do(w.Handler, hr)
 	if c.Noise && noiseLeak(rep) {
